@@ -72,6 +72,26 @@ class FA(Feature):
         return np.array([h])
 
 
+class FP(Feature):
+    """Parse-only feature (observes no event, like the library's price / weight / spread features) that keeps a
+    running quantity between two calls: the peak of the account value and the number of observations made."""
+
+    def __init__(self):
+        self.peak = -np.inf
+        self.calls = 0
+        super().__init__(space=gymnasium.spaces.Box(-np.inf, np.inf, (1, 2), float), name="FP")
+
+    def parse(self):
+        self.calls += 1
+        broker = getattr(self, "broker", None)
+        if broker is not None:
+            try:
+                self.peak = max(self.peak, broker.net_liquidation_value(False))
+            except Exception:
+                pass
+        return np.array([[float(self.calls), self.peak if self.peak > -np.inf else 0.0]])
+
+
 def build(spec):
     kind, seed = spec
     rng = random.Random(seed)
@@ -126,7 +146,7 @@ def build(spec):
     kw = {}
     if not default_state:
         if rng.random() < 0.8 or kind == "discrete":
-            kw["state"] = [FA(cs), FeaturePortfolioWeight(cs, -3, 3), FeatureSpread(cs)]
+            kw["state"] = [FA(cs), FeaturePortfolioWeight(cs, -3, 3), FeatureSpread(cs)] + ([FP()] if rng.random() < 0.6 else [])
         else:
             kw["state"] = IState()
     env = TradingEnv(action_space=space, transmitter=tr, latency=L, steps_delay=d, broker_fees=fees, reward=reward,
